@@ -115,6 +115,9 @@ DES_NOTE = ("Trusted: the driver (harness/des.c), the monitor for this property 
 
 
 # ----------------------------------------------------------------------------- C05
+HOG_OPS = "racq0,rrel0,hold0,hold1,int0,int1,exit"
+
+
 def c05_jobs(tier):
     ops = "racq0,rrel0,rpre0,hold0,hold1,tadd1,int0,int1,int2,stop1,exit,prio0.2,prio2.0"
     if tier == "quick":
@@ -128,6 +131,9 @@ def c05_jobs(tier):
             des("p2-two-resources", "mutex", 3, procs=2, prios="0,1", budget=5, res=2,
                 ops="racq0,rrel0,racq1,rrel1,rpre0,rpre1,hold0,hold1,int0,int1,exit",
                 script="racq0,racq1,hold1,rrel0,rrel1"),
+            # a waiter that loses the hand-over race to a re-acquiring releaser twice in a row
+            des("p2-hog", "mutex", 3, procs=2, prios="0,0", budget=8, res=1, ops=HOG_OPS,
+                script0="racq0,hold1,rrel0,racq0,hold1,rrel0,racq0,hold1", script1="racq0,hold1,rrel0"),
         ]
     j1 = des("p3-loop", "mutex", 4, 1500, procs=3, prios="0,1,2", budget=5, res=1, ops=ops,
              script="racq0,hold1,rrel0,racq0,hold1")
@@ -144,6 +150,9 @@ def c05_jobs(tier):
         des("p3-two-resources", "mutex", 4, 1500, procs=3, prios="0,1,1", budget=5, res=2,
             ops="racq0,rrel0,racq1,rrel1,rpre0,rpre1,hold0,hold1,tadd1,int0,int1,int2,stop1,exit",
             script="racq0,racq1,hold1,rrel0,rrel1"),
+        des("p3-hog", "mutex", 3, 1500, procs=3, prios="0,0,1", budget=11, res=1, ops=HOG_OPS + ",int2,tadd1",
+            script0="racq0,hold1,rrel0,racq0,hold1,rrel0,racq0,hold1,rrel0,racq0,hold1", script1="racq0,hold1,rrel0",
+            script2="hold1,racq0,hold1,rrel0"),
     ]
 
 
@@ -260,6 +269,17 @@ def c06_jobs(tier):
             ops="racq0,rrel0," + common + ",int3,prio3.2", script="racq0,hold1,rrel0"),
         des("resource-extremes", "order", 2, dl, procs=4, prios="-9223372036854775808,0,9223372036854775807,0",
             budget=3, res=1, ops="racq0,rrel0,hold0,hold1,int1", script="racq0,hold1,rrel0"),
+        # neighbouring priorities where a double (or a difference) cannot tell them apart
+        des("resource-adjacent-high", "order", 2, dl, procs=4,
+            prios="0,9223372036854775806,9223372036854775807,9007199254740993",
+            budget=3, res=1, ops="racq0,rrel0,hold0,hold1,int1", script="racq0,hold1,rrel0"),
+        des("resource-adjacent-low", "order", 2, dl, procs=4,
+            prios="0,-9223372036854775808,-9223372036854775807,-9007199254740993",
+            budget=3, res=1, ops="racq0,rrel0,hold0,hold1,int1", script="racq0,hold1,rrel0"),
+        des("condition-adjacent", "order", 2, dl, procs=4,
+            prios="0,9007199254740992,9007199254740993,-9223372036854775807",
+            budget=3, cond=1, ops="cwait0,cwait1,csig,setx1,setx2,hold0,hold1", script0="hold1,setx2,csig",
+            script1="cwait0,hold1", script2="cwait1,hold1", script3="cwait0,hold1"),
         des("pool", "order", b, dl, procs=4, prios="0,1,2,1", budget=3, pool=2,
             ops="pacq1,pacq2,prel1,prel2," + common, script="pacq2,hold1,prel2"),
         des("buffer", "order", b, dl, procs=4, prios="0,1,2,1", budget=3, buf=2,
@@ -306,6 +326,10 @@ def c07_jobs(tier):
             script0="pacq2,hold1,prel2", script1="pacq1,hold1,ppre2", script2="hold1,ppre3,hold1"),
         des("cap2-eqprio", "pool", b, dl, procs=3, prios="1,1,1", budget=4, pool=2, ops=ops, script="pacq1,hold1,pacq1,prel2"),
     ]
+    # a waiter that loses the hand-over race to a re-acquiring releaser twice in a row
+    jobs.append(des("cap2-hog", "pool", b, dl, procs=2, prios="0,0", budget=8, pool=2,
+                    ops="pacq1,pacq2,prel1,prel2,hold0,hold1,int0,int1,exit",
+                    script0="pacq2,hold1,prel2,pacq2,hold1,prel2,pacq2,hold1", script1="pacq2,hold1,prel2"))
     if tier != "quick":
         jobs.append(des("cap4-p4", "pool", 3, dl, procs=4, prios="0,1,2,3", budget=4, pool=4,
                         ops=ops + ",pacq4,ppre3,int3,stop3", script="pacq2,hold1,prel2"))
@@ -370,6 +394,13 @@ def c11_jobs(tier):
         des("unlimited", "buffer", b, dl, procs=3, prios="0,0,1", budget=3, buf="max",
             ops="bput1,bput5,bput0m,bget1,bget5,bget0m,hold1,tadd1,int0,int1,int2,exit",
             script0="bput0m,hold1,bput5", script1="bget5,hold1", script2="bget0m,hold1"),
+        # a waiting getter / putter that is woken twice and finds the buffer emptied / refilled each time
+        des("cap2-thief-get", "buffer", b, dl, procs=2, prios="0,0", budget=7, buf=2,
+            ops="bput1,bput2,bget1,bget2,hold0,hold1,int0,int1,exit",
+            script0="hold1,bput2,bget2,hold1,bput2,bget2,hold1", script1="bget2,hold1"),
+        des("cap2-thief-put", "buffer", b, dl, procs=2, prios="0,0", budget=8, buf=2,
+            ops="bput1,bput2,bget1,bget2,hold0,hold1,int0,int1,exit",
+            script0="bput2,hold1,bget2,bput2,hold1,bget2,bput2,hold1", script1="bput2,hold1"),
     ]
     return jobs
 
@@ -399,6 +430,17 @@ def c12_jobs(tier):
         jobs.append(des("priorityqueue-cap" + cap, "queue", b, dl, procs=4, prios="0,0,1,1", budget=3, pq=cap, ops=pops,
                         script0="pqput0,pqput1,hold1", script1="pqput-1,pqreprio2,pqput1", script2="pqget,hold1,pqget",
                         script3="pqget,pqget"))
+    # a waiting getter / putter that is woken twice and finds the queue emptied / refilled each time
+    tops = "oqput0,oqput0n,oqget,hold0,hold1,int0,int1,exit"
+    jobs.append(des("objectqueue-thief-get", "queue", b, dl, procs=2, prios="0,0", budget=7, oq="1", ops=tops,
+                    script0="hold1,oqput0,oqget,hold1,oqput0,oqget,hold1", script1="oqget,hold1"))
+    jobs.append(des("objectqueue-thief-put", "queue", b, dl, procs=2, prios="0,0", budget=8, oq="1", ops=tops,
+                    script0="oqput0,hold1,oqget,oqput0,hold1,oqget,oqput0,hold1", script1="oqput0n,hold1"))
+    tops = "pqput0,pqput1,pqget,hold0,hold1,int0,int1,exit"
+    jobs.append(des("priorityqueue-thief-get", "queue", b, dl, procs=2, prios="0,0", budget=7, pq="1", ops=tops,
+                    script0="hold1,pqput0,pqget,hold1,pqput1,pqget,hold1", script1="pqget,hold1"))
+    jobs.append(des("priorityqueue-thief-put", "queue", b, dl, procs=2, prios="0,0", budget=8, pq="1", ops=tops,
+                    script0="pqput0,hold1,pqget,pqput1,hold1,pqget,pqput0,hold1", script1="pqput1,hold1"))
     return jobs
 
 
